@@ -177,27 +177,29 @@ pub struct Cmp {
 }
 impl Eval for Cmp {
     fn eval<R: PathResolver>(&self, context: &EvalContext<R>) -> bool {
+        let lhs = context.resolve(&self.path);
         match self.op {
-            CmpOp::Eq => cmp_dispatch(&PartialEq::eq, &context.resolve(&self.path), &self.value),
-            CmpOp::NotEq => cmp_dispatch(&PartialEq::ne, &context.resolve(&self.path), &self.value),
-            CmpOp::LessThan => {
-                cmp_dispatch(&PartialOrd::lt, &context.resolve(&self.path), &self.value)
-            }
-            CmpOp::LessThanEq => {
-                cmp_dispatch(&PartialOrd::le, &context.resolve(&self.path), &self.value)
-            }
-            CmpOp::GreatThan => {
-                cmp_dispatch(&PartialOrd::gt, &context.resolve(&self.path), &self.value)
-            }
+            CmpOp::Eq => cmp_dispatch(&PartialEq::eq, &lhs, &self.value),
+            CmpOp::NotEq => cmp_dispatch(&PartialEq::ne, &lhs, &self.value),
+            CmpOp::LessThan => cmp_dispatch(&|a, b| same_kind(a, b) && a < b, &lhs, &self.value),
+            CmpOp::LessThanEq => cmp_dispatch(&|a, b| same_kind(a, b) && a <= b, &lhs, &self.value),
+            CmpOp::GreatThan => cmp_dispatch(&|a, b| same_kind(a, b) && a > b, &lhs, &self.value),
             CmpOp::GreatThanEq => {
-                cmp_dispatch(&PartialOrd::ge, &context.resolve(&self.path), &self.value)
+                cmp_dispatch(&|a, b| same_kind(a, b) && a >= b, &lhs, &self.value)
             }
         }
     }
 }
 
+/// Only values of the same kind are ordered
+fn same_kind(lhs: &Value, rhs: &Value) -> bool {
+    std::mem::discriminant(lhs) == std::mem::discriminant(rhs)
+}
+
 fn cmp_dispatch<Cmp: Fn(&Value, &Value) -> bool>(cmp: &Cmp, lhs: &Value, rhs: &Value) -> bool {
     match lhs {
+        // A path that does not resolve to a value stands in no relation to the literal
+        Value::Null => false,
         Value::List(list) => {
             if !rhs.is_list() {
                 list.iter().any(|el| cmp_dispatch(cmp, el, rhs))
@@ -205,7 +207,6 @@ fn cmp_dispatch<Cmp: Fn(&Value, &Value) -> bool>(cmp: &Cmp, lhs: &Value, rhs: &V
                 cmp(lhs, rhs)
             }
         }
-
         _ => cmp(lhs, rhs),
     }
 }
